@@ -1384,4 +1384,37 @@ def Op.argsOK : Op → Prop
   | .efuseProgramOnce i v _ => i < 4294967296 ∧ v < 4294967296
   | _ => True
 
+/-! ### the device aborts a host→device data phase -/
+
+/-- where the bytes of a data-out operation go on the device: `(command tag, params builder, apply prefix)` -/
+def abortPrefix (d : Dev) (tag : Nat) (a : Nat) (pre : Bytes) : Dev :=
+  if tag = Spec.cWriteMemory then { d with mem := splice d.mem a pre }
+  else if tag = Spec.cKeyProvisioning then { d with kpBuf := pre }
+  else { d with sb := pre }
+
+/-- What the protocol defines when the device aborts the data phase at its `(k+1)`-th packet (`d.abortAfter = some k`,
+    the phase has more than `k` packets): the first `k` packets took effect, the operation fails with
+    `kStatus_AbortDataPhase`.  `none`: not a data-out operation / not covered. -/
+def specAbort (ce : Bool) (d : Dev) (k : Nat) : Op → Option (Dev × Except HErr Val × Nat)
+  | .writeMemory a data _ =>
+    let chunks := split d.maxPacket data
+    if a + data.length ≤ d.mem.length ∧ k < chunks.length then
+      some ({ (abortPrefix d Spec.cWriteMemory a (chunks.take k).flatten) with ncmd := d.ncmd + 1, pktCount := k },
+            specFail ce Spec.stAbortDataPhase (.bool false), Spec.stAbortDataPhase)
+    else none
+  | .receiveSbFile data _ =>
+    let chunks := split d.maxPacket data
+    if k < chunks.length then
+      some ({ (abortPrefix d Spec.cReceiveSbFile 0 (chunks.take k).flatten) with ncmd := d.ncmd + 1, pktCount := k },
+            specFail ce Spec.stAbortDataPhase (.bool false), Spec.stAbortDataPhase)
+    else none
+  | .kpWriteKeyStore data =>
+    let chunks := split d.maxPacket data
+    if k < chunks.length then
+      some ({ (abortPrefix d Spec.cKeyProvisioning 0 (chunks.take k).flatten) with
+                ncmd := d.ncmd + 1, pktCount := k, kpTarget := (Spec.kpWriteKeyStore, 0) },
+            specFail ce Spec.stAbortDataPhase (.bool false), Spec.stAbortDataPhase)
+    else none
+  | _ => none
+
 end SpsdkVerif.Mboot
